@@ -144,7 +144,8 @@ func c02Run(lang string) func(t *fw.T) {
 		if r.Intn(30) == 0 {
 			maxLen = 20000
 		}
-		data := gen.Hostile(r, li.corpus, li.dict, maxLen)
+		_ = li
+		data := hostileInput(r, lang, maxLen)
 		if lang == "js" {
 			data = gen.ToValidUTF8(data)
 		}
